@@ -74,8 +74,35 @@ pub fn expected_facts(f: &Facts, path: PathSel) -> Facts {
                 g.recs[k].retain(|r| !r.terms.is_empty());
             }
             g.ann_calls.retain(|c| c.term.is_some());
+            // `data-version: hp/releases/YYYY-MM-DD`
+            g.version = (g.version.0 % 10000, g.version.1 % 13, g.version.2 % 32);
+            // a line-based, tab-separated text file cannot carry control characters in a name
+            for t in &mut g.terms {
+                t.name = text_name(&t.name);
+            }
+            for k in 0..3 {
+                for r in &mut g.recs[k] {
+                    r.name = text_name(&r.name);
+                }
+            }
+            for c in &mut g.ann_calls {
+                if let Some(n) = &c.alt_name {
+                    c.alt_name = Some(text_name(n));
+                }
+            }
             g
         }
+    }
+}
+
+/// `name` with every control character, Unicode line separator and obo escape / comment / stanza
+/// character replaced by '_'
+pub fn text_name(name: &str) -> String {
+    let bad = |c: char| c.is_control() || matches!(c, '\u{2028}' | '\u{2029}' | '!' | '[' | ']' | '\\' | '"');
+    if name.chars().any(bad) {
+        name.chars().map(|c| if bad(c) { '_' } else { c }).collect()
+    } else {
+        name.to_string()
     }
 }
 
@@ -158,6 +185,8 @@ pub fn noise_strategy() -> impl Strategy<Value = JaxNoise> {
     )
         .prop_map(|(gene_header, extra_tags, typedefs, comments, extra_cols, explicit_false, isa_modifier, blank_rows)| JaxNoise {
             no_header: false,
+            // derived from two of the generated fields: half of the cases have the usual head
+            hpoa_head: if comments % 2 == 0 { 0 } else { 1 + (typedefs + gene_header) % 3 },
             gene_header,
             extra_tags,
             typedefs,
@@ -294,4 +323,60 @@ pub fn maybe_headerless(facts: &mut Facts, path: PathSel, noise: &mut JaxNoise, 
         noise.no_header = true;
         facts.version = (0, 0, 0);
     }
+}
+
+/// Facts of a large ontology: `n` terms (more than a 16-bit index addresses when n > 65 535) in
+/// standard flavour. Node k (1-based; node 1 = HP:0000001, node 2 = HP:0000118, node 3 = a modifier
+/// root) has the parents k/2 and, when different, k/3 (so multi-parent diamonds at every depth,
+/// depth about log2 n); ids are scattered over the id space by a multiplicative map (id order is
+/// unrelated to depth) and terms are supplied deepest first. Genes / OMIM / ORPHA records (`recs`
+/// of each) sit on pseudo-random nodes.
+pub fn bulk_facts(n: u32, mult: u32, recs: u32) -> Facts {
+    const M: u64 = 9_999_991;
+    let id_of = |k: u32| -> u32 {
+        match k {
+            1 => 1,
+            2 => 118,
+            _ => {
+                // injective for k < M as long as mult is not a multiple of M; avoid 0, 1, 118
+                let mut id = ((u64::from(k) * u64::from(mult)) % M) as u32 + 2;
+                if id == 118 {
+                    id = 9_999_998;
+                }
+                id
+            }
+        }
+    };
+    let mut f = Facts::default();
+    f.version = (2024, 2, 29);
+    for k in (1..=n).rev() {
+        f.terms.push(TermFact { id: id_of(k), name: format!("n{k}"), obsolete: false, replacement: None });
+        if k >= 2 {
+            let (a, b) = (k / 2, k / 3);
+            f.edges.push((id_of(k), id_of(a)));
+            if b >= 1 && b != a {
+                f.edges.push((id_of(k), id_of(b)));
+            }
+        }
+    }
+    let mut x = 0x2545F4914F6CDD1Du64 ^ u64::from(n);
+    let mut next = || {
+        x ^= x << 13;
+        x ^= x >> 7;
+        x ^= x << 17;
+        x
+    };
+    for kind in 0..3 {
+        for r in 1..=recs {
+            let cnt = 1 + (next() % 3) as usize;
+            let mut terms: Vec<u32> = (0..cnt).map(|_| id_of(1 + (next() % u64::from(n)) as u32)).collect();
+            terms.sort_unstable();
+            terms.dedup();
+            for t in &terms {
+                f.ann_calls.push(AnnCall { kind: kind as u8, rec: r, term: Some(*t), alt_name: None });
+            }
+            f.recs[kind].push(RecFact { id: r, name: format!("r{kind}_{r}"), terms });
+        }
+    }
+    f
 }
